@@ -71,6 +71,13 @@ void DependencyInfoParser::parse() {
   while (cur != end) {
     const char* opcodeStart = cur;
     auto opcode = Opcode(*cur++);
+
+    // If the terminating null was consumed as an opcode there is no operand
+    // left to scan (the file ends in "\0\0", or is a lone "\0").
+    if (cur == end) {
+      actions.error("missing operand", opcodeStart - data.data());
+      break;
+    }
     const char* operandStart = cur;
     while (*cur != '\0') {
       ++cur;
